@@ -50,6 +50,18 @@ def main():
             bad = any(ch.tag in ("failure", "error", "skipped") for ch in tc)
             (failed if bad else passed).add(name)
     missing = sorted(stable - passed)
+    if missing and len(missing) <= 10:
+        # timing-sensitive tests fail under parallel load: retry them serially once
+        ids = []
+        for m in missing:
+            mod, _, name = m.partition("::")
+            ids.append(mod.replace(".", "/") + ".py::" + name)
+        env = dict(os.environ, PYTHONPATH=repo, PYTHONDONTWRITEBYTECODE="1")
+        r2 = subprocess.run(["/venv/bin/python", "-m", "pytest", "-q", "-p", "no:cacheprovider", "--timeout=900", *ids],
+                            cwd=repo, env=env, capture_output=True, text=True)
+        print("retry of", len(missing), "test(s) serially:", (r2.stdout.strip().splitlines() or ["?"])[-1])
+        if r2.returncode == 0:
+            missing = []
     print("pytest:", *tail)
     print(f"stable={len(stable)} passed_of_stable={len(stable & passed)} missing={len(missing)}")
     for m in missing[:40]:
